@@ -6,7 +6,7 @@ from .common import agree_ref, selfattr, inline_locals, new_helpers_of
 
 FR = 'frame.Frame.'
 DS = 'voltage.data_stream.'
-DIST = ('distributions.chi2', 'distributions.gaussian', 'distributions.truncated_gaussian',
+DIST = ('distributions.chi2', 'distributions.gaussian',
         'sample_from_obs.sample_gaussian_params', FR + '_update_noise_frame_stats')
 
 REF_CHI2 = '''
